@@ -291,5 +291,87 @@ BuildArray(sym, kind, d) ==
       oddpos |-> IF kind = "fermionic" /\ odd THEN <<[label |-> d.oddpos, dual |-> FALSE]>> ELSE <<>>,
       ids |-> [blocks |-> 0, phases |-> 0]]
 
+\* vd = [blocks : Seq([c, d]), start]
+BuildVector(vd) ==
+  LET before(k) == SumSeqInt([j \in 1..(k - 1) |-> vd.blocks[j].d])
+  IN [t |-> "vector",
+      blocks |-> [k \in 1..Len(vd.blocks) |->
+                    [c |-> vd.blocks[k].c, s |-> <<>>, shape |-> <<vd.blocks[k].d>>,
+                     data |-> [p \in 1..vd.blocks[k].d |-> <<FillVal(vd.start, before(k) + p), 0>>],
+                     dt |-> "float64", exact |-> TRUE]],
+      ids |-> [blocks |-> 0, phases |-> 0]]
+
+---------------------------------------------------------------------------
+\* arithmetic of BlockBase (block_core.py:115-281) - dict order as the code produces it
+IMapBlocks(x, f(_)) == [x EXCEPT !.blocks = [i \in 1..Len(x.blocks) |-> [x.blocks[i] EXCEPT !.data = MapData(x.blocks[i].data, f)]]]
+IScale(x, k) == IMapBlocks(x, LAMBDA v : VMul(v, k))
+INeg(x) == IMapBlocks(x, VNeg)
+\* _binary_blockwise_op: policy "strict" (None), "outer", "inner" (after the repair: left-only blocks are dropped)
+IBinary(x, y, f(_, _), policy) ==
+  LET left == [i \in 1..Len(x.blocks) |->
+                 IF HasSector(y, x.blocks[i].s)
+                 THEN [x.blocks[i] EXCEPT !.data = [p \in 1..Len(x.blocks[i].data) |-> f(x.blocks[i].data[p], BlockOf(y, x.blocks[i].s).data[p])]]
+                 ELSE x.blocks[i]]
+      rightonly == SelectSeq(y.blocks, LAMBDA b : ~HasSector(x, b.s))
+  IN CASE policy = "outer" -> [x EXCEPT !.blocks = left \o rightonly]
+       [] policy = "inner" -> [x EXCEPT !.blocks = SelectSeq(left, LAMBDA b : HasSector(y, b.s))]
+       [] OTHER -> [x EXCEPT !.blocks = left]
+\* multiply_diagonal (abelian_core.py:2199-2245): blocks whose charge the vector lacks are deleted
+IMulDiag(x, v, ax) ==
+  LET kept == SelectSeq(x.blocks, LAMBDA b : VecHas(v, b.s[ax]))
+  IN [x EXCEPT !.blocks = [i \in 1..Len(kept) |->
+        [kept[i] EXCEPT !.data = [p \in 1..Len(kept[i].data) |->
+            VMul(kept[i].data[p], VecBlock(v, kept[i].s[ax]).data[Unravel(p - 1, kept[i].shape)[ax] + 1])]]]]
+\* trace (abelian_core.py:2183-2197), sum, squared norm
+ITrace(x) == SumSeqV([i \in 1..Len(x.blocks) |->
+                IF x.blocks[i].s[1] = x.blocks[i].s[2]
+                THEN SumSeqV([k \in 1..x.blocks[i].shape[1] |-> x.blocks[i].data[Ravel(<<k - 1, k - 1>>, x.blocks[i].shape) + 1]])
+                ELSE VZero])
+ISum(x) == SumSeqV([i \in 1..Len(x.blocks) |-> SumSeqV(x.blocks[i].data)])
+INorm2(x) == SumSeqInt([i \in 1..Len(x.blocks) |-> SumSeqInt([p \in 1..Len(x.blocks[i].data) |-> VAbs2(x.blocks[i].data[p])])])
+\* sync_charges / fill_missing_blocks (abelian_core.py:1190-1280)
+ISyncCharges(x) == [x EXCEPT !.ix = SyncIndices(x.ix, Sectors(x))]
+IFillMissing(x) ==
+  LET like == x.blocks[1]
+      secs == ValidSectorSeqS(x.sym, x.ix, x.charge)
+      missing == SelectSeq(secs, LAMBDA s : ~HasSector(x, s))
+  IN [x EXCEPT !.blocks = x.blocks \o [i \in 1..Len(missing) |->
+        LET shape == [a \in 1..Rank(x) |-> SizeOf(x.ix[a], missing[i][a])] IN Blk(missing[i], shape, Zeros(shape), like)]]
+\* to_dense (abelian_core.py:1662-1688): concatenation over the charges of every axis in sorted order
+IToDense(x) ==
+  LET shape == [a \in 1..Rank(x) |-> SizeTotal(x.ix[a])]
+      loc(a, i) == LET k == CHOOSE j \in 1..Len(x.ix[a].cm) :
+                              OffsetOf(x.ix[a], x.ix[a].cm[j].c) <= i /\ i < OffsetOf(x.ix[a], x.ix[a].cm[j].c) + x.ix[a].cm[j].d
+                   IN <<x.ix[a].cm[k].c, i - OffsetOf(x.ix[a], x.ix[a].cm[k].c)>>
+      val(idx) == LET l == [a \in 1..Rank(x) |-> loc(a, idx[a])]
+                      s == [a \in 1..Rank(x) |-> l[a][1]]
+                  IN IF HasSector(x, s) THEN BlockOf(x, s).data[Ravel([a \in 1..Rank(x) |-> l[a][2]], BlockOf(x, s).shape) + 1] ELSE VZero
+  IN [shape |-> shape, data |-> [p \in 1..ProdSeq(shape) |-> val(Unravel(p - 1, shape))]]
+\* single-array einsum (abelian_core.py:2262-2326): per diagonal block, results accumulated by new sector
+RECURSIVE IEinsumAccum(_, _, _)
+IEinsumAccum(items, acc, like) ==
+  IF items = <<>> THEN acc
+  ELSE LET it == Head(items)
+           hit == {i \in 1..Len(acc) : acc[i].s = it.s}
+       IN IF hit = {} THEN IEinsumAccum(Tail(items), Append(acc, Blk(it.s, it.shape, it.data, like)), like)
+          ELSE LET i == CHOOSE j \in hit : TRUE IN IEinsumAccum(Tail(items), [acc EXCEPT ![i].data = AddData(acc[i].data, it.data)], like)
+IEinsum(x, lhs, rhs) ==
+  LET ps == SetToSortSeq({pq \in (1..Len(lhs)) \X (1..Len(lhs)) : pq[1] < pq[2] /\ lhs[pq[1]] = lhs[pq[2]]}, LAMBDA u, w : u[1] < w[1])
+      kept == [i \in 1..Len(rhs) |-> CHOOSE p \in 1..Len(lhs) : lhs[p] = rhs[i] /\ \A q \in 1..(p - 1) : lhs[q] # rhs[i]]
+      diag == SelectSeq(x.blocks, LAMBDA b : \A k \in 1..Len(ps) : b.s[ps[k][1]] = b.s[ps[k][2]])
+      blockres(b) ==
+        LET rshape == [i \in 1..Len(kept) |-> b.shape[kept[i]]]
+            tshape == [k \in 1..Len(ps) |-> b.shape[ps[k][1]]]
+        IN [s |-> [i \in 1..Len(kept) |-> b.s[kept[i]]], shape |-> rshape,
+            data |-> [p \in 1..ProdSeq(rshape) |->
+                        LET ridx == Unravel(p - 1, rshape) IN
+                        SumSeqV([t \in 1..ProdSeq(tshape) |->
+                           LET tidx == Unravel(t - 1, tshape)
+                               full == [a \in 1..Len(lhs) |->
+                                          IF \E i \in 1..Len(kept) : kept[i] = a THEN ridx[CHOOSE i \in 1..Len(kept) : kept[i] = a]
+                                          ELSE tidx[CHOOSE k \in 1..Len(ps) : a \in {ps[k][1], ps[k][2]}]]
+                           IN b.data[Ravel(full, b.shape) + 1]])]]
+  IN [x EXCEPT !.ix = [i \in 1..Len(kept) |-> x.ix[kept[i]]],
+               !.blocks = IEinsumAccum([i \in 1..Len(diag) |-> blockres(diag[i])], <<>>, IF x.blocks = <<>> THEN [dt |-> "float64"] ELSE x.blocks[1])]
 
 =============================================================================
